@@ -105,7 +105,12 @@ def trace_terms(recs, cfgs=None, permissive=False):
             # The reinstated state does not depend on the order (C13_ta_state_determined_by_grants), only the
             # capacity checks on the way do: grants without exclusive CPUs go first, which is the most permissive
             # order (a successful pass of the implementation in any map order is reproduced by it).
-            order = lambda i: (1 if grants[i]['exclusive'] else 0, last.get(i, -1), i)
+            # ... and among the slicing grants deeper pools first: slicing at an ancestor eats a descendant's CPUs
+            # without asking it (K2), never the other way round
+            par = {p['name']: p['parent'] for p in ta['pools']}
+            def depth(n, k=0):
+                return k if not par.get(n) else depth(par[n], k + 1)
+            order = lambda i: (1 if grants[i]['exclusive'] else 0, -depth(grants[i]['pool']), last.get(i, -1), i)
             tterm, idx = tree_term(ta['pools'])
             cur = dict(tree=tterm, idx=idx, sig=pools_sig(ta), groups=[])
             segs.append(cur)
@@ -123,7 +128,10 @@ def trace_terms(recs, cfgs=None, permissive=False):
             if permissive:
                 # second opinion when the order reconstructed from the call trace makes a capacity test fail:
                 # the state after the group does not depend on the order, only the tests on the way do
-                new.sort(key=lambda i: 1 if grants[i]['exclusive'] else 0)
+                par = {p['name']: p['parent'] for p in ta['pools']}
+                def depth(n, k=0):
+                    return k if not par.get(n) else depth(par[n], k + 1)
+                new.sort(key=lambda i: (1 if grants[i]['exclusive'] else 0, -depth(grants[i]['pool'])))
             for i in rel:
                 ops.append('ORelease %d' % cidx(i))
                 stats['releases'] += 1
